@@ -1761,9 +1761,12 @@ def gen_C15(r, n, thorough=False):
         b = log_uniform_tf(r, -20, 20, sign=1)
         c.add('TwoFloat.log %s %s' % (w2(x), w2(b)), kind='log', x=x, b=b)
         # ln_1p
-        kk = r.below(6)
+        kk = r.below(7)
         if kk == 0:
             y = log_uniform_tf(r, -1000, -8)
+        elif kk == 6:
+            # just above -1: 1 + x = m * 2^-k down to the last bit of the low word (the f64 seed log1p(hi) cannot see lo)
+            y = tf_of_fr(-1 + Fr(r.rng(1, 2**r.rng(1, 24)), 2**r.rng(24, 128)))
         elif kk == 1:
             y = tf_of_fr(Fr(r.rng(-2**30 + 1, 3 * 2**28), 2**30))      # (-1, 0.75)
         elif kk == 2:
